@@ -10,10 +10,10 @@ func init() { register("C04", checkC04) }
 
 // C04: cmdline blocks, for every configuration of the anti-evasion patterns.
 func checkC04(c *Ctx) error {
-	cfgs := []string{"broken", "crsblock", "mixed", "hostile"}
+	cfgs := []string{"broken", "crsblock", "named", "mixed", "hostile"}
 	lines, thLines := "4", "3"
 	if c.Tier == "thorough" {
-		cfgs = []string{"absent", "empty", "broken", "partial", "crs", "crsblock", "mixed", "hostile"}
+		cfgs = []string{"absent", "empty", "broken", "partial", "crs", "crsblock", "named", "mixed", "hostile"}
 		lines, thLines = "5", "4"
 	}
 	var states, trans, replayed, cli, seen, mism int64
@@ -32,13 +32,17 @@ func checkC04(c *Ctx) error {
 		if err != nil {
 			return fmt.Errorf("design theorem for configuration %s (spec-level, says nothing about the code): %v", cfg, err)
 		}
-		rp, err := c.newAsmReplayer(1, 15)
+		keep := uint64(1)
+		if cfg == "named" {
+			keep = 4 // every case of this instance goes through the CLI (-f is a flag of the CLI)
+		}
+		rp, err := c.newAsmReplayer(keep, 15)
 		if err != nil {
 			return err
 		}
 		rp.nontriv = func(cs *AsmCase) bool {
 			t := strings.Join(cs.Lines, "\n")
-			return strings.Contains(t, "cmdline") && (cfg == "partial" || cfg == "crs" || cfg == "crsblock" || cfg == "mixed" || cfg == "hostile" || strings.ContainsAny(t, "@~. "))
+			return strings.Contains(t, "cmdline") && (cfg == "partial" || cfg == "crs" || cfg == "crsblock" || cfg == "named" || cfg == "mixed" || cfg == "hostile" || strings.ContainsAny(t, "@~. "))
 		}
 		ex, err := c.runTLC(TLCRun{Module: "MC_C01", Seed: c.Seed, Timeout: 30 * time.Minute,
 			Constants: consts("MaxLines", "= "+lines, "Export", "= TRUE", "Theorem", "= FALSE"),
@@ -74,7 +78,7 @@ func checkC04(c *Ctx) error {
 	c.Cov["disagreements"] = mism
 	c.Cov["configurations"] = cfgs
 	c.Cov["exhaustive"] = true
-	c.Cov["rule"] = fmt.Sprintf("for each of %d toolchain.yaml variants (of: (absent, empty, unreadable, partial, CRS-like as quoted and as block scalars, hostile = patterns with a top-level alternation)) TLC enumerates every well-formed program of <= %s lines with unix/windows cmdline blocks over 14 command words (plain, dot, blank, trailing @ and ~, escaped markers, markers elsewhere) alone, next to entries and nested in assemble blocks; the expected language is the STRUCTURAL meaning of the statement (word characters with the anti-evasion pattern between any two, suffix patterns after a marker, each pattern one unit) on all strings over {a,x,.,blank,@} up to length 4; every program with a cmdline block is compiled by the real code with the real toolchain.yaml and language-compared; non-trivial = cmdline block with a non-empty configuration or a word with a marker, dot or blank", len(cfgs), lines)
+	c.Cov["rule"] = fmt.Sprintf("for each of %d toolchain.yaml variants (of: (absent, empty, unreadable, partial, CRS-like as quoted and as block scalars, CRS-like in a file of another name selected with -f next to a hostile toolchain.yaml, hostile = patterns with a top-level alternation)) TLC enumerates every well-formed program of <= %s lines with unix/windows cmdline blocks over 14 command words (plain, dot, blank, trailing @ and ~, escaped markers, markers elsewhere) alone, next to entries and nested in assemble blocks; the expected language is the STRUCTURAL meaning of the statement (word characters with the anti-evasion pattern between any two, suffix patterns after a marker, each pattern one unit) on all strings over {a,x,.,blank,@} up to length 4; every program with a cmdline block is compiled by the real code with the real toolchain.yaml and language-compared; non-trivial = cmdline block with a non-empty configuration or a word with a marker, dot or blank", len(cfgs), lines)
 	c.Summary = fmt.Sprintf("configs=%d programs=%d replayed=%d cli=%d", len(cfgs), seen, replayed, cli)
 	return nil
 }
